@@ -1,0 +1,81 @@
+//go:build verif
+
+package client
+
+import (
+	"context"
+	"encoding/hex"
+	"errors"
+	"io"
+	"strconv"
+	"strings"
+
+	"google.golang.org/grpc/status"
+
+	goatorepo "github.com/avos-io/goat/gen/goatorepo"
+	"github.com/avos-io/goat/internal"
+)
+
+// The functions of this file render the details of the verification hook
+// events of stream.go. They are only called behind verifhook.Enabled, i.e.
+// never in a build without the "verif" tag.
+
+// verifErr renders an error a user call is about to return:
+// nil | eof | c<grpc status code>.
+func verifErr(err error) string {
+	switch {
+	case err == nil:
+		return "nil"
+	case err == io.EOF:
+		return "eof"
+	default:
+		return "c" + strconv.Itoa(int(status.Code(err)))
+	}
+}
+
+// verifReadErr classifies a failure of the stream's Read: the stream's own
+// context ended (ctx) or anything else (err).
+func verifReadErr(err error) string {
+	if errors.Is(err, context.Canceled) || errors.Is(err, context.DeadlineExceeded) {
+		return "ctx"
+	}
+	return "err"
+}
+
+// verifClass renders the shape of an envelope handed to the read loop:
+// <flags>:<status code>:<body>, flags from m (undecodable header metadata),
+// r (reset), t (trailer), x (undecodable trailer metadata), e (trailer
+// without metadata), n (no header);
+// body is _ when absent, else the payload in hex (- when empty).
+func verifClass(rpc *goatorepo.Rpc) string {
+	var fl strings.Builder
+	if _, err := internal.ToMetadata(rpc.GetHeader().GetHeaders()); err != nil {
+		fl.WriteByte('m')
+	}
+	if rpc.GetReset_() != nil {
+		fl.WriteByte('r')
+	}
+	if rpc.Trailer != nil {
+		fl.WriteByte('t')
+		if _, err := internal.ToMetadata(rpc.Trailer.GetMetadata()); err != nil {
+			fl.WriteByte('x')
+		}
+		if rpc.Trailer.GetMetadata() == nil {
+			fl.WriteByte('e')
+		}
+	}
+	if rpc.Header == nil {
+		fl.WriteByte('n')
+	}
+	if fl.Len() == 0 {
+		fl.WriteByte('-')
+	}
+	body := "_"
+	if rpc.Body != nil {
+		body = "-"
+		if len(rpc.Body.Data) > 0 {
+			body = hex.EncodeToString(rpc.Body.Data)
+		}
+	}
+	return fl.String() + ":" + strconv.Itoa(int(rpc.GetStatus().GetCode())) + ":" + body
+}
